@@ -3,7 +3,9 @@ package rhpmitm
 import (
 	"errors"
 	"fmt"
+	"os"
 	"sort"
+	"strconv"
 	"sync"
 	"time"
 
@@ -536,9 +538,23 @@ func (c *Contractor) LockV2Contract(id types.FileContractID) (rhp.RevisionState,
 	rs, unlock, err := c.EphemeralContractor.LockV2Contract(id)
 	if err == nil {
 		rs.Roots = append([]types.Hash256(nil), rs.Roots...)
+		if unlockDelay > 0 {
+			inner := unlock
+			unlock = func() { time.Sleep(unlockDelay); inner() }
+		}
 	}
 	return rs, unlock, err
 }
+
+// unlockDelay (VERIF_UNLOCK_DELAY_MS, self-test only) makes every handler hold
+// its contract lock that much longer after it has sent its last message: the
+// renter's call has long returned by then, so a monitor that reads the host's
+// state without waiting at the quiescence barrier first finds the contract
+// locked. Off by default; it changes no verdict, it only widens that window.
+var unlockDelay = func() time.Duration {
+	ms, _ := strconv.Atoi(os.Getenv("VERIF_UNLOCK_DELAY_MS"))
+	return time.Duration(ms) * time.Millisecond
+}()
 
 // V2FileContractElement implements rhp.Contractor.
 func (c *Contractor) V2FileContractElement(id types.FileContractID) (types.ChainIndex, types.V2FileContractElement, error) {
